@@ -254,3 +254,10 @@ Proof.
     intros z m Hzm. rewrite forallb_forall in B4. apply level_ok_spec. apply B4. exact Hzm.
   - destruct (isQuadTree t) as [|n|] eqn:E; try discriminate. exists n. intros ids. apply validate_of_reject. exact E.
 Qed.
+
+(** the literals of the tolerance and the checks of validateTileMatrixSet, as regenerated from the source *)
+Lemma source_shape_lemma :
+  gen_quadtree_ratio_lo = Dec 199 (-2) /\ gen_quadtree_ratio_hi = Dec 201 (-2) /\
+  gen_validate_calls = ["pointindex.IsQuadTree"; "len"; "errors.New"; "index tms.TileMatrices"; "fmt.Errorf";
+                        "slices.Max"; "pointindex.DeviationStats"]%string.
+Proof. repeat split; reflexivity. Qed.
